@@ -319,7 +319,7 @@ def run(tier, seed, factor=1):
     scfgs = speccheck.make_configs(rnd, common.scale(tier, 100, 800) * factor)
     grnd = random.Random(seed * 86028121 + 20)
     for _ in range(common.scale(tier, 8, 60) * factor):  # U-gram variant D (Dyck words): algebraic closed forms, a repeated non-atom factor
-        scfgs.append(dict(gram=["D"] + [grnd.choice(["F", "P", "S"]) for _ in range(grnd.choice([0, 0, 1]))], gram_flat=True, alpha="ab",
+        scfgs.append(dict(gram=[grnd.choice(["D", "H", "H"])] + [grnd.choice(["F", "P", "S"]) for _ in range(grnd.choice([0, 0, 1]))], gram_flat=True, alpha="ab",
                           db=grnd.choice(["RuleDB", "RuleDBForgetStrategy", "RuleDBForest"]), seed=grnd.randrange(10**6), perc=grnd.choice([100, 20, 1]),
                           smallest=False, expand_verified=False))
     souts = specrun.pool_map(spec_worker, [(c, N) for c in scfgs])
